@@ -428,8 +428,10 @@ def gen_misc_program(rng, path):
             r = rng.below(4)
             # (absurd magnitudes such as 2^62 are replayed as explicit witnesses: harness/apirun.c sizes its user
             #  buffer from the counts and is not written for them)
+            # (no huge start on the record dimension either: it is a VALID put that makes numrecs huge, and every later
+            #  whole-variable read, fill or redefinition then takes for ever)
             if r == 0:
-                st[d] = rng.choice([-1, 1 << 31, 99])
+                st[d] = rng.choice([-1, 99, 7])
             elif r == 1:
                 ct[d] = rng.choice([-1, 99, 0])
             elif r == 2:
@@ -478,7 +480,9 @@ def gen_misc_program(rng, path):
             L.append('waitall c %s' % rng.choice(['GET', 'PUT']))
         elif r == 2 and reqn[0]:
             # (ids that were never issued are replayed as an explicit witness: WAITBOGUS)
-            ids = [rng.choice(['q%d' % rng.range(1, reqn[0]), 'q%d' % rng.range(1, reqn[0]), 'NULL']) for _ in range(rng.range(1, 3))]
+            # (no repeated id either: the wait is refused (C02 F19) but harness/apirun.c releases the user buffers of
+            #  the named requests all the same, and the still pending request then writes into freed harness memory)
+            ids = list(dict.fromkeys(rng.choice(['q%d' % rng.range(1, reqn[0]), 'q%d' % rng.range(1, reqn[0]), 'NULL']) for _ in range(rng.range(1, 3))))
             L.append('%s %d %s' % (rng.choice(['wait c', 'cancel']), len(ids), ' '.join(ids)))
         elif r == 3:
             L += ['waitall c ALL', 'redef'] + [meta() for _ in range(rng.range(0, 3))]
